@@ -321,7 +321,9 @@ def run_and_validate(ctx, exe, scripts, tag, tla, cfg, what, replayed=False):
     n_exec = vlib.count_execs(tr)
     fault = None
     if rc != 0:
-        fault = "driver exit %d: %s" % (rc, out[-1500:])
+        key = [ln.strip() for ln in out.splitlines() if "ERROR: AddressSanitizer" in ln or "runtime error:" in ln or
+               ln.startswith("SUMMARY:") or "FAULT kind=" in ln or "terminate called" in ln or "what():" in ln]
+        fault = "driver exit %d: %s" % (rc, " / ".join(key[:4])[:900] if key else out[-900:])
         with open(tr, "a") as f:
             f.write('\n{"e":"Fault","kind":"exit","what":"rc=%d"}\n' % rc)
     elif "FAULT kind=" in out:
